@@ -16,7 +16,7 @@
 (*                                                                         *)
 (* Several traces are concatenated; an "init" line starts a new one.       *)
 (***************************************************************************)
-EXTENDS Props, Json, TLCExt
+EXTENDS Props, Json, TLCExt, Known
 
 TLog == ndJsonDeserialize("trace.ndjson")
 
@@ -132,10 +132,20 @@ T_C18_NoAbnormalAbort ==
   [][(NotReset /\ ev'.dom = "spec" /\ WellFormed(ev'.m) /\ PreOf(st, ev')) => ~ob'.panicked]_tvars
 
 \* ---- C09: export / validate / import / re-export at the logged state
+\* known finding (known_findings.txt, key batch_start_eq_end): MsgCreateBatch accepts
+\* start date = end date, the Batch state validator rejects it
+KF_batch_start_eq_end ==
+  /\ ev.type = "ExportImport"
+  /\ ob.validate_eco_table = "regen.ecocredit.v1.Batch"
+  /\ \E b \in st.batches : b.start = b.end
+T_KF_batch_start_eq_end == ~KF_batch_start_eq_end
+
 T_C09_RoundTrip ==
   ev.type = "ExportImport" =>
     /\ ob.export_panic = "" /\ ob.import_panic = ""
-    /\ ob.validate_eco = "" /\ ob.validate_data = ""
+    /\ \/ ob.validate_eco = ""
+       \/ ("batch_start_eq_end" \in KnownKeys /\ KF_batch_start_eq_end)
+    /\ ob.validate_data = ""
     /\ ob.reexport_equal
     /\ ob.inv_after_import = ""
 \* the imported chain is in the same abstract state (and the behaviour goes on there)
